@@ -86,20 +86,34 @@ def clause_text(unit, loc):
     return ''
 
 
-def report_violation(prop, unit, r, o, scratch, tier):
+def report_violation(prop, unit, r, o, scratch, tier, others=None):
     d = os.path.join(core.VERIF, 'replays')
     os.makedirs(d, exist_ok=True)
     path = os.path.join(d, '%s_%s_%s.json' % (prop, r['task'], re.sub(r'[^\w.\-]', '_', o['name'])))
     task = [t for t in unit['tasks'] if t['id'] == r['task']][0]
     usc = os.path.join(scratch, unit['name'])
-    trace = core.get_trace(task, r['gb'], usc, o['name'])
+    trace = None
+    small = False
+    if task.get('small_harness'):
+        # same contract, same body, harness with small concrete-sized inputs: a counterexample that can be rebuilt natively
+        try:
+            t2 = dict(task)
+            t2['harness'] = task['small_harness']
+            gb2 = core.instrument(unit, t2, usc, r['task'] + '_small')
+            trace = core.get_trace(t2, gb2, usc, o['name'])
+            small = trace is not None
+        except core.Undecided as e:
+            core.log('  small-input harness unavailable: %s' % str(e)[:200])
+    if trace is None:
+        trace = core.get_trace(task, r['gb'], usc, o['name'])
     vals = core.trace_values(trace) if trace else {}
     echo = {k: v for k, v in vals.items() if re.match(r'(e_|g_|h_)', k)}
     doc = {'property': prop, 'unit': unit['name'], 'task': r['task'], 'obligation': o['name'],
            'obligation_text': o['description'], 'contract_clause': clause_text(unit, o['loc']),
            'location': o['loc'], 'solver': o['solver'], 'bounded': r.get('bounded'),
            'sliced_functions': r.get('slices'),
-           'counterexample_inputs': echo}
+           'counterexample_inputs': echo, 'counterexample_from_small_input_harness': small,
+           'other_failed_obligations_of_task': [{'obligation': x['name'], 'text': x['description'][:160], 'location': x['loc']} for x in (others or [])][:80]}
     suffix = ''
     if not echo:
         suffix = ' no-failing-input-found'
